@@ -60,6 +60,7 @@ type M struct {
 	smsOrigin   map[string]string
 	cookieOwner map[string]string
 	revoked     map[string]bool
+	staleSecret map[string]bool
 	lastAct  map[string]time.Time
 	lastActU map[string]string
 	Last    *world.Result
@@ -138,7 +139,7 @@ func New(cfg world.Cfg, out *wire.Out) (*M, error) {
 	}
 	m := &M{W: w, Cfg: cfg, Out: out, sha: map[string]string{}, bc: map[string]string{}, Secrets: map[string]string{},
 		used: map[string]int{}, issuedN: map[string]int{}, smsIssue: map[string]int{},
-		smsOrigin: map[string]string{}, cookieOwner: map[string]string{}, revoked: map[string]bool{}}
+		smsOrigin: map[string]string{}, cookieOwner: map[string]string{}, revoked: map[string]bool{}, staleSecret: map[string]bool{}}
 	out.Add(CfgLine(cfg), "cfg-ok")
 	return m, nil
 }
